@@ -98,6 +98,7 @@ type expectOpts struct {
 	numericTagValues   bool // newrelic turns tag values that parse as numbers into JSON numbers
 	bucketRateZero     bool // newrelic represents histogram buckets as counters, which carry a per-second field of 0
 	skipSets           bool // known finding: newrelic flush-type metrics emits sets without a value
+	ownHostTag         bool // otlp: a series that carries a host: tag of its own is exported with that host, not with its source
 }
 
 func numericNorm(tags []string) []string {
@@ -118,6 +119,17 @@ func expect(mm *gostatsd.MetricMap, d gostatsd.TimerSubtypes, o expectOpts) expe
 	e := expectation{values: map[ident][]float64{}, otlpH: map[ident][]float64{}, le: map[ident][]float64{}}
 	id := func(name string, tags gostatsd.Tags, src gostatsd.Source) ident {
 		i := ident{token: tokenOf(name)}
+		if o.ownHostTag {
+			var rest gostatsd.Tags
+			for _, tg := range tags {
+				if strings.HasPrefix(tg, "host:") {
+					src = gostatsd.Source(tg[5:])
+				} else {
+					rest = append(rest, tg)
+				}
+			}
+			tags = rest
+		}
 		if withTags {
 			if o.numericTagValues {
 				i.tags = tagID(numericNorm(tags), false)
@@ -209,11 +221,12 @@ func observedLe(pts []point, withTags, withHost bool, hostFromTag bool, dropLe b
 		host := p.host
 		if hostFromTag {
 			var rest []string
+			seenHost := false
 			for _, t := range tags {
-				if strings.HasPrefix(t, "host:") {
-					host = t[5:]
+				if strings.HasPrefix(t, "host:") && !seenHost {
+					host, seenHost = t[5:], true
 				} else {
-					rest = append(rest, t)
+					rest = append(rest, t) // a second host value is not the series' host: it stays visible as a tag
 				}
 			}
 			tags = rest
@@ -436,6 +449,52 @@ func variant(name string) bk.Variant {
 	panic(name)
 }
 
+// withOwnHost returns a copy of the map in which every series that has a source also carries the tag host:web1, at the
+// front, at the back or where sorting puts it: the tag stage appends its tags without sorting, so a backend meets tags in any order.
+func withOwnHost(mm *gostatsd.MetricMap, pos string) *gostatsd.MetricMap {
+	out := gen.CopyMapSpare(mm)
+	place := func(tags gostatsd.Tags, src gostatsd.Source) gostatsd.Tags {
+		if src == "" {
+			return tags
+		}
+		t := append(gostatsd.Tags{}, tags...)
+		switch pos {
+		case "front":
+			return append(gostatsd.Tags{"host:web1"}, t...)
+		case "back":
+			return append(t, "host:web1")
+		}
+		t = append(t, "host:web1")
+		sort.Strings(t)
+		return t
+	}
+	for n, m := range out.Counters {
+		for k, v := range m {
+			v.Tags = place(v.Tags, v.Source)
+			out.Counters[n][k] = v
+		}
+	}
+	for n, m := range out.Gauges {
+		for k, v := range m {
+			v.Tags = place(v.Tags, v.Source)
+			out.Gauges[n][k] = v
+		}
+	}
+	for n, m := range out.Sets {
+		for k, v := range m {
+			v.Tags = place(v.Tags, v.Source)
+			out.Sets[n][k] = v
+		}
+	}
+	for n, m := range out.Timers {
+		for k, v := range m {
+			v.Tags = place(v.Tags, v.Source)
+			out.Timers[n][k] = v
+		}
+	}
+	return out
+}
+
 func TestPayloadsCarryEverySeriesOnce(t *testing.T) {
 	rapid.Check(t, func(t *rapid.T) {
 		c := cfgGen().Draw(t, "config")
@@ -452,6 +511,7 @@ func TestPayloadsCarryEverySeriesOnce(t *testing.T) {
 		afterDropped := rapid.IntRange(0, 5).Draw(t, "after-a-dropped-flush") == 0
 		afterDroppedRounds := rapid.IntRange(0, 4).Draw(t, "flushes-since-the-dropped-one")
 		dropMap := gen.MapFromMetrics([]*gostatsd.Metric{{Name: "dropped.before", Type: gostatsd.GAUGE, Value: 99, Rate: 1, Tags: gostatsd.Tags{"stale:1"}}})
+		otlpOwnHost := rapid.SampledFrom([]string{"", "", "front", "back", "sorted"}).Draw(t, "otlp-series-with-own-host-tag")
 		order := append([]string(nil), httpChecked...)
 		var shared *gostatsd.MetricMap
 		if rapid.Bool().Draw(t, "backends-share-the-flushed-map") {
@@ -476,7 +536,11 @@ func TestPayloadsCarryEverySeriesOnce(t *testing.T) {
 					send(t, kit, gen.CopyMapSpare(mm))
 				}
 			}
-			if shared != nil {
+			flushed := mm // what this backend was given (for its expectation)
+			if otlpOwnHost != "" && kit.Variant.Backend == "otlp" {
+				flushed = withOwnHost(mm, otlpOwnHost)
+				send(t, kit, gen.CopyMapSpare(flushed))
+			} else if shared != nil {
 				send(t, kit, shared)
 			} else {
 				send(t, kit, gen.CopyMapSpare(mm))
@@ -525,7 +589,8 @@ func TestPayloadsCarryEverySeriesOnce(t *testing.T) {
 			}
 			withHost := kit.Variant.Backend == "datadog" || kit.Variant.Backend == "newrelic" || kit.Variant.Backend == "otlp"
 			isNR := kit.Variant.Backend == "newrelic"
-			ex := expect(mm, c.mask, expectOpts{withTags: true, withHost: withHost, numericTagValues: isNR, bucketRateZero: isNR, skipSets: name == "newrelic/metrics" && vt.Excluded(sigNRSet)})
+			ex := expect(flushed, c.mask, expectOpts{withTags: true, withHost: withHost, numericTagValues: isNR, bucketRateZero: isNR, skipSets: name == "newrelic/metrics" && vt.Excluded(sigNRSet),
+				ownHostTag: otlpOwnHost != "" && kit.Variant.Backend == "otlp"})
 			want := ex.values
 			if name == "otlp/AsHistogram" {
 				want = ex.otlpH
